@@ -210,7 +210,7 @@ fn c18_try_from_year_range() {
 // ---------------------------------------------------------------------------------------------
 // C06: path sanitisation against an independent lexical model (Unix host semantics)
 // ---------------------------------------------------------------------------------------------
-fn zfd_named(name: String) -> ZipFileData {
+pub(crate) fn zfd_named(name: String) -> ZipFileData {
     ZipFileData {
         system: System::Unix,
         version_made_by: 20,
@@ -235,7 +235,7 @@ fn zfd_named(name: String) -> ZipFileData {
     }
 }
 
-fn path_byte(sel: u8) -> u8 {
+pub(crate) fn path_byte(sel: u8) -> u8 {
     match sel {
         0 => b'a',
         1 => b'.',
@@ -246,7 +246,7 @@ fn path_byte(sel: u8) -> u8 {
 }
 
 /// reference for enclosed_name: Some iff no NUL, not absolute, depth never negative
-fn ref_enclosed<const L: usize>(n: &[u8; L]) -> bool {
+pub(crate) fn ref_enclosed<const L: usize>(n: &[u8; L]) -> bool {
     let mut i = 0;
     while i < L {
         if n[i] == 0 {
